@@ -68,7 +68,7 @@ def step (st : St) (ws : List String) : St × String × String × String :=
         | none => (st, "bad-op", "-", "")
         | some op =>
           let (s', o) := ExtId.step st.m op
-          ({ st with m := s' }, showOut o ("reads " ++ toString hs.length), "ok", "")
+          ({ st with m := s' }, showOut o ("reads " ++ toString hs.length), (if o == Out.bad then "-" else "ok"), "")
     | _, _ => (st, "bad-op", "-", "")
   | ["raw", x] =>
     match x.toNat? with
